@@ -93,11 +93,19 @@ def monitor_c11(rng: random.Random, tier: str) -> tuple[list, int]:
                                     (False, True), (False, True), (True, False)))
     if tier == "quick":
         combos = rng.sample(combos, 700)
-    for (a, b, sa, da, ts, weak, init, cache) in combos:
+    for ci, (a, b, sa, da, ts, weak, init, cache) in enumerate(combos):
         n += 1
+        # every third case on child entities (model M) of a parent of another model: the child's own description decides;
+        # an attribute only the parent has ("pp") is unknown there
+        via_parent = ci % 3 == 2
+        if via_parent and rng.random() < 0.2:
+            if rng.random() < 0.5:
+                sa = "pp"
+            else:
+                da = "pp"
         w = mosaik.World({"G": {"python": "verif_stubs:GStub"}}, asyncio_loop=asyncio.new_event_loop(), skip_greetings=True, cache=cache)
         try:
-            ents = sw.start_in_groups(w, P)
+            ents = sw.start_in_groups(w, P, via_parent=via_parent)
             before = snapshot(w)
             kw = {}
             if ts:
@@ -123,9 +131,9 @@ def monitor_c11(rng: random.Random, tier: str) -> tuple[list, int]:
                             "src_group": P[a], "dest_group": P[b], "src_attr": sa, "dest_attr": da, "time_shifted": ts, "weak": weak,
                             "initial_data": init, "cache": cache})
                 continue
-            want = (sa == "zz") or (da == "zz") or ((ts or weak) and da == "nt" and not init) or (weak and cl == 0)
+            want = (sa in ("zz", "pp")) or (da in ("zz", "pp")) or ((ts or weak) and da == "nt" and not init) or (weak and cl == 0)
             case = {"src_group": P[a], "dest_group": P[b], "src_attr": sa, "dest_attr": da, "time_shifted": ts, "weak": weak,
-                    "initial_data": init, "cache": cache}
+                    "initial_data": init, "cache": cache, "child_entities_of_another_model": via_parent}
             if rejected != bool(want):
                 vio.append({"law": "connect raises ScenarioError exactly in the four documented cases", "rejected": rejected, **case})
             elif rejected:
